@@ -11,6 +11,8 @@ package main
 //             panic, no hang) and afterwards the file can be written and read again (no leaked lock)
 //   wrongkey  all ordered pairs of a settings matrix: another secret/salt must fail, unless the concatenations
 //             are equal (class of the known finding KF-C05-1, counted, must then read the data)
+//   shared    several filespaces side by side whose Secret/Salt slices share backing arrays with spare capacity,
+//             buffers scribbled over afterwards: each reads its own file and refuses the others'
 //   ns        random sequences of name-space operations on the encrypted filespace and on a plain twin
 //
 // Output: `FAIL <class> <detail>` per failed case, `NOTE …` lines, one summary line `oracle cases=… fails=… …`.
@@ -463,6 +465,65 @@ func (o *orc) wrongKeys() {
 	}
 }
 
+// ---------------------------------------------------------------------------------------------- shared buffers
+
+// Several filespaces side by side, their Secret and Salt slices cut out of shared backing arrays with spare
+// capacity (see sharedMatrix): each must still read its own file and refuse every file written under another
+// salt — also after the caller scribbled over the buffers.
+func (o *orc) sharedBuffers() {
+	saltSets := [][]string{{"sa", "sb"}, {"sa", "sb", "sc"}, {"salt", "t"}, {"t", "salt"}, {"", "t", "tt"}, {"one", "one"},
+		{"aaaa", "bbbb", "cccc", "dddd"}}
+	i := 0
+	for _, set := range saltSets {
+		for _, kind := range []string{"raw", "tagged"} {
+			for _, mutate := range []bool{false, true} {
+				for _, base := range []string{"mem", "disk"} {
+					i++
+					wp, rp := []string{"whole", "stream"}[i%2], []string{"whole", "stream"}[(i/2)%2]
+					secret := []string{"secret", "", "s", "a-longer-secret-than-the-others"}[i%4]
+					desc := fmt.Sprintf("shared buffers: secret=%q salts=%q cipher=%s base=%s %s>%s mutate-after=%v", secret, set, kind,
+						base, wp, rp, mutate)
+					o.at(desc)
+					o.count("shared")
+					b, cleanup, err := newBase(base)
+					if err != nil {
+						o.fail("infra", err.Error())
+						continue
+					}
+					var salts [][]byte
+					for _, x := range set {
+						salts = append(salts, []byte(x))
+					}
+					m := sharedMatrix(realCipher(kind), b, i%3 == 0, []byte(secret), salts, mutate, wp, rp)
+					cleanup()
+					rows := strings.Split(strings.TrimPrefix(m, "m="), ",")
+					if len(rows) != len(set) {
+						o.fail("shared", desc+": "+m)
+						continue
+					}
+					for x, row := range rows {
+						for y := range row {
+							want := byte('e')
+							if set[x] == set[y] {
+								want = 's'
+							}
+							if row[y] == want {
+								continue
+							}
+							if x == y {
+								o.fail("shared-own", fmt.Sprintf("%s: filespace %d no longer reads its own file (%c); matrix %s", desc, x, row[y], m))
+							} else {
+								o.fail("shared-other", fmt.Sprintf("%s: filespace %d (salt %q) answered file %d (salt %q) with %c; matrix %s",
+									desc, x, set[x], y, set[y], row[y], m))
+							}
+						}
+					}
+				}
+			}
+		}
+	}
+}
+
 // ---------------------------------------------------------------------------------------------- ns
 
 var oraclePaths = []string{"a", "a/x.txt", "a/b", "a/b/y.txt", "top.txt", "nope", "c/d", "c", "a/b/z", "e.bin"}
@@ -637,6 +698,7 @@ func oracle(w *bufio.Writer, tier string) {
 	o.tamperSmall()
 	o.tamperLarge()
 	o.batch("wrong keys", 600*time.Second, o.wrongKeys)
+	o.batch("shared buffers", 600*time.Second, o.sharedBuffers)
 	o.nsSequences()
 	keys := make([]string, 0, len(o.classes))
 	for k := range o.classes {
